@@ -8,6 +8,8 @@
 -/
 import PonyVerif.Lemmas.Serial
 import PonyVerif.Lemmas.BagWalk
+import PonyVerif.Lemmas.AttrSel
+import PonyVerif.Lemmas.Pickle
 import PonyVerif.Gen.ReducePk
 namespace PonyVerif.Props.C31
 open PonyVerif.Model.Serial
@@ -137,6 +139,16 @@ theorem C31_source_walk :
          ("process_related_objects and value not in bag.dicts[value.__class__]", "value", "False")]
     ∧ PonyVerif.Gen.ReducePk.walkLastStatement = "bag.dicts[entity][obj] = d" := by decide
 
+/-- `_get_attrs_` files its result under a key built from ALL its parameters (the ones that influence the selection), looks
+    it up and stores it under that same key, and recomputes exactly when the cached value is falsy — the shape
+    `Model/AttrSel.lean: cached` mirrors.  (A key that omits a parameter would make `C31_attrs_cache_transparent` false of the code.) -/
+theorem C31_source_attrs_cache :
+    PonyVerif.Gen.ReducePk.attrsParams = ["only", "exclude", "with_collections", "with_lazy"]
+    ∧ PonyVerif.Gen.ReducePk.attrsCacheKey = "(only, exclude, with_collections, with_lazy)"
+    ∧ PonyVerif.Gen.ReducePk.attrsCacheLookup = "entity._attrnames_cache_.get(key)"
+    ∧ PonyVerif.Gen.ReducePk.attrsCacheMissTest = "not attrs"
+    ∧ PonyVerif.Gen.ReducePk.attrsCacheStore = "entity._attrnames_cache_[key] = attrs" := by decide
+
 /-! ### the bag traversal: what `to_dict(objects)` contains, for every object graph and every order -/
 
 open PonyVerif.Model.BagWalk in
@@ -169,5 +181,149 @@ example : -- a ↔ b related to each other, both given, in both orders (the inpu
     let rel : Nat → List Nat := fun o => if o = 0 then [1] else if o = 1 then [0, 2] else []
     lookup (bagWalk rel (fun _ => true) [0, 1]) 0 = some true ∧ lookup (bagWalk rel (fun _ => true) [1, 0]) 0 = some true
     ∧ lookup (bagWalk rel (fun _ => true) [1, 0]) 2 = some false ∧ lookup (bagWalk rel (fun _ => true) [0]) 2 = none := by decide
+
+/-! ### which attributes `to_dict` / the bag report: `_get_attrs_` and its cache -/
+
+open PonyVerif.Model.AttrSel in
+/-- CACHE TRANSPARENCY, for every entity (attribute list), every tokenizer and EVERY history of `_get_attrs_` calls
+    (any mix of only / exclude given as None, strings or tuples, flags, unknown names): each call returns exactly what the
+    uncached computation returns — the per-entity cache `_attrnames_cache_` never changes an answer. -/
+theorem C31_attrs_cache_transparent (split : String → List String) (attrs : List Attr) (qs : List Query) :
+    runHist split attrs [] qs = qs.map (compute split attrs) :=
+  runHist_spec split attrs qs [] (by intro q r h; simp at h)
+
+open PonyVerif.Model.AttrSel in
+/-- what a successful selection contains: only attributes of the entity; nothing that was excluded; and, when `only` is not
+    given, every attribute that is visible under the flags (non-lazy scalars and to-one relations always, collections iff
+    `with_collections`, lazy attributes iff `with_lazy`) and not excluded — and nothing invisible. -/
+theorem C31_attrs_selection (split : String → List String) (attrs : List Attr) (q : Query) (r : List String)
+    (h : compute split attrs q = .ok r) :
+    (∀ n ∈ r, known attrs n = true)
+    ∧ (q.exclude.truthy = true → ∀ n ∈ r, n ∉ q.exclude.toks split)
+    ∧ (q.only.truthy = false →
+        (∀ a ∈ attrs, visible q a = true → ¬ (q.exclude.truthy = true ∧ a.name ∈ q.exclude.toks split) → a.name ∈ r)
+        ∧ (∀ n ∈ r, ∃ a ∈ attrs, a.name = n ∧ visible q a = true)) := by
+  unfold compute at h
+  by_cases ho : q.only.truthy = true
+  · simp only [ho, if_true] at h
+    cases hu : firstUnknown attrs (q.only.toks split) with
+    | some n => simp [hu] at h
+    | none =>
+      simp only [hu] at h
+      have hk : ∀ n ∈ q.only.toks split, known attrs n = true := by
+        intro n hn
+        have := List.find?_eq_none.mp hu n hn
+        simpa using this
+      by_cases he : q.exclude.truthy = true
+      · simp only [he, if_true] at h
+        cases hx : firstUnknown attrs (q.exclude.toks split) with
+        | some n => simp [hx] at h
+        | none =>
+          simp only [hx, Except.ok.injEq] at h
+          subst h
+          refine ⟨fun n hn => hk n (List.mem_filter.mp hn).1, fun _ n hn => by simpa using (List.mem_filter.mp hn).2, fun hf => by simp [ho] at hf⟩
+      · simp only [he] at h
+        simp at h
+        subst h
+        exact ⟨hk, fun hf => absurd hf he, fun hf => by simp [ho] at hf⟩
+  · have ho' : q.only.truthy = false := by simpa using ho
+    simp only [ho', Bool.false_eq_true, if_false] at h
+    have hb : ∀ n, n ∈ (attrs.filter (visible q)).map (·.name) ↔ ∃ a ∈ attrs, a.name = n ∧ visible q a = true := by
+      intro n; simp only [List.mem_map, List.mem_filter]
+      exact ⟨fun ⟨a, ⟨ha, hv⟩, hn⟩ => ⟨a, ha, hn, hv⟩, fun ⟨a, ha, hn, hv⟩ => ⟨a, ⟨ha, hv⟩, hn⟩⟩
+    have hkn : ∀ n, (∃ a ∈ attrs, a.name = n ∧ visible q a = true) → known attrs n = true := by
+      intro n ⟨a, ha, hn, _⟩
+      simp only [known, List.any_eq_true]
+      exact ⟨a, ha, by simp [hn]⟩
+    by_cases he : q.exclude.truthy = true
+    · simp only [he, if_true] at h
+      cases hx : firstUnknown attrs (q.exclude.toks split) with
+      | some n => simp [hx] at h
+      | none =>
+        simp only [hx, Except.ok.injEq] at h
+        subst h
+        refine ⟨fun n hn => hkn n ((hb n).mp (List.mem_filter.mp hn).1), fun _ n hn => by simpa using (List.mem_filter.mp hn).2, fun _ => ⟨?_, ?_⟩⟩
+        · intro a ha hv hne
+          refine List.mem_filter.mpr ⟨(hb a.name).mpr ⟨a, ha, rfl, hv⟩, ?_⟩
+          have : a.name ∉ q.exclude.toks split := fun hm => hne ⟨he, hm⟩
+          simpa using this
+        · intro n hn; exact (hb n).mp (List.mem_filter.mp hn).1
+    · simp only [he] at h
+      simp at h
+      subst h
+      exact ⟨fun n hn => hkn n ((hb n).mp hn), fun hf => absurd hf he,
+             fun _ => ⟨fun a ha hv _ => (hb a.name).mpr ⟨a, ha, rfl, hv⟩, fun n hn => (hb n).mp hn⟩⟩
+
+open PonyVerif.Model.AttrSel in
+example : -- a cached empty selection, a string and a tuple form of the same selector, and an unknown name
+    let attrs := [Attr.mk "id" false false, Attr.mk "bio" false true, Attr.mk "bs" true false]
+    (runHist splitBlank attrs [] [⟨.none, .none, false, false⟩, ⟨.str "bs, id", .none, false, false⟩, ⟨.tup ["bs", "id"], .str "id", false, false⟩,
+                                ⟨.none, .tup ["id"], false, false⟩, ⟨.none, .tup ["id"], false, false⟩, ⟨.tup ["nope"], .none, true, true⟩]).map
+        (fun r => match r with | .ok l => Sum.inl l | .error e => Sum.inr e)
+      = [.inl ["id"], .inl ["bs", "id"], .inl ["bs"], .inl [], .inl [], .inr "nope"] := by decide
+
+/-! ### pickling one entity and unpickling it in another session -/
+
+open PonyVerif.Model.Pickle in
+/-- exactly the stored, live objects can be pickled, and the pickle carries the key and every loaded attribute value -/
+theorem C31_pickle_reduce (o : Obj) :
+    (∀ p, reduce o = .ok p → p.pk = o.pk ∧ p.d = o.vals)
+    ∧ ((∃ p, reduce o = .ok p) ↔ (o.status = .loaded ∨ o.status = .inserted ∨ o.status = .updated)) := by
+  unfold reduce
+  cases hs : o.status <;> simp [Status.isDel]
+  all_goals (intro p hp; subst hp; simp)
+
+open PonyVerif.Model.Pickle in
+/-- For EVERY session and every pickle: the object handed back has the pickled key, and (unless the session knows the
+    object as deleted) each attribute has the value the session had already loaded for it, else the pickled value. -/
+theorem C31_unpickle_values (s : Session) (p : Pickled) :
+    (unpickle s p).2.pk = p.pk
+    ∧ ((unpickle s p).2.status.isDel = false → ∀ a,
+        (unpickle s p).2.vals.lookup a =
+          ((match s.find? (fun (o : Obj) => o.pk == p.pk) with | some o => o.vals.lookup a | none => none).or (p.d.lookup a))) := by
+  unfold unpickle
+  cases hf : s.find? (fun o => o.pk == p.pk) with
+  | none => exact ⟨rfl, fun _ a => by simp [lookup_setMissing]⟩
+  | some o =>
+    have hpk : o.pk = p.pk := by simpa using List.find?_some hf
+    by_cases hd : o.status.isDel = true
+    · simp only [hd, if_true]
+      exact ⟨hpk, fun h => by simp at h⟩
+    · simp only [hd]
+      exact ⟨hpk, fun _ a => by simp [lookup_setMissing]⟩
+
+open PonyVerif.Model.Pickle in
+/-- ROUND TRIP: if what the receiving session has loaded of the object agrees with the pickled object wherever both have a
+    value (the database was not changed in between — both were read from the same rows), then every attribute value of the
+    pickled object is found, equal, on the unpickled object. -/
+theorem C31_pickle_roundtrip (s : Session) (o : Obj) (p : Pickled) (hp : reduce o = .ok p)
+    (hlive : ∀ o2, s.find? (fun x => x.pk == o.pk) = some o2 → o2.status.isDel = false)
+    (hagree : ∀ o2, s.find? (fun x => x.pk == o.pk) = some o2 → ∀ a u v, o2.vals.lookup a = some u → o.vals.lookup a = some v → u = v) :
+    (unpickle s p).2.pk = o.pk ∧ ∀ a v, o.vals.lookup a = some v → (unpickle s p).2.vals.lookup a = some v := by
+  obtain ⟨hpk, hd⟩ := (C31_pickle_reduce o).1 p hp
+  have hv := C31_unpickle_values s p
+  refine ⟨hv.1.trans hpk, ?_⟩
+  intro a v hav
+  have hlive' : (unpickle s p).2.status.isDel = false := by
+    unfold unpickle
+    cases hf : s.find? (fun x => x.pk == p.pk) with
+    | none => rfl
+    | some o2 =>
+      have := hlive o2 (by rw [← hpk]; exact hf)
+      simp [this]
+  rw [hv.2 hlive' a, hd]
+  cases hf : s.find? (fun x => x.pk == p.pk) with
+  | none => simpa using hav
+  | some o2 =>
+    cases hu : o2.vals.lookup a with
+    | none => simpa [hu] using hav
+    | some u =>
+      have := hagree o2 (by rw [← hpk]; exact hf) a u v hu hav
+      simp [hu, this]
+
+open PonyVerif.Model.Pickle in
+example : -- the receiving session already holds a NEWER value of `v`: it wins over the pickled one; `s` comes from the pickle
+    (unpickle [{ pk := 1, status := .loaded, vals := [("v", 9)] }] { pk := 1, d := [("v", 1), ("s", 5)] }).2.vals = [("v", 9), ("s", 5)]
+    ∧ (reduce { pk := 1, status := .modified, vals := [] }).toOption = none := by decide
 
 end PonyVerif.Props.C31
